@@ -334,6 +334,10 @@ def join_ty(a, b):
         if isinstance(a, TReal) or isinstance(b, TReal):
             return REAL
         return INT
+    if isinstance(a, TSeq) and isinstance(b, TTuple):
+        return a
+    if isinstance(a, TTuple) and isinstance(b, TSeq):
+        return b
     if isinstance(a, TList) and isinstance(b, TList) and a.elem == b.elem:
         return TList(a.elem, a.nullable or b.nullable)
     raise TypeMismatch('no join of %r and %r' % (a, b))
